@@ -516,8 +516,13 @@ impl RefState {
         for (k, reqs) in by_pool {
             let mut pool = self.pools[&k];
             let before = pool;
-            let tl: u128 = reqs.iter().filter(|t| t.outputs[0].denom == k.left()).map(|t| t.outputs[0].value.0).fold(0, |a, b| a.saturating_add(b));
-            let tr: u128 = reqs.iter().filter(|t| t.outputs[0].denom == k.right()).map(|t| t.outputs[0].value.0).fold(0, |a, b| a.saturating_add(b));
+            // totals beyond 128 bits (more than 256 requests of the maximum coin value) admit no single price in this
+            // arithmetic: the statement has no rule for them, the requests stay as they are
+            let total = |d: Denom| reqs.iter().filter(|t| t.outputs[0].denom == d).try_fold(0u128, |a, t| a.checked_add(t.outputs[0].value.0));
+            let (tl, tr) = match (total(k.left()), total(k.right())) {
+                (Some(l), Some(r)) => (l, r),
+                _ => continue,
+            };
             let (lw, rw) = pool.swap_many(tl, tr);
             for t in &reqs {
                 let v = t.outputs[0].value.0;
@@ -556,8 +561,13 @@ impl RefState {
             by_pool.entry(k).or_default().push(tx.clone());
         }
         for (k, reqs) in by_pool {
-            let tl: u128 = reqs.iter().map(|t| t.outputs[0].value.0).fold(0, |a, b| a.saturating_add(b));
-            let tr: u128 = reqs.iter().map(|t| t.outputs[1].value.0).fold(0, |a, b| a.saturating_add(b));
+            // totals beyond 128 bits: no rule in the statement; the deposits stay as they are (see settle_swaps)
+            let total = |i: usize| reqs.iter().try_fold(0u128, |a, t| a.checked_add(t.outputs[i].value.0));
+            let sum_terms = reqs.iter().try_fold(0u128, |a, t| a.checked_add(t.outputs[0].value.0.sqrt().saturating_mul(t.outputs[1].value.0.sqrt())));
+            let (tl, tr) = match (total(0), total(1), sum_terms) {
+                (Some(l), Some(r), Some(_)) => (l, r),
+                _ => continue,
+            };
             let mut pool = self.pools.get(&k).copied().unwrap_or_else(PoolState::new_empty);
             let before = pool;
             let liqs = pool.deposit(tl, tr);
